@@ -215,6 +215,7 @@ def run(tier, seed):
                 vcases.append({"n": n, "ops": circ, "meas": req})
                 vmeta.append((replay, out, post, dev, outrecs, lab))
     # ---- negative controls
+    n_real_traces = len(traces)
     neg_t, neg_e = [], []
     for i in range(0, len(traces), max(1, len(traces) // 12)):
         t = traces[i]
@@ -223,23 +224,23 @@ def run(tier, seed):
         n = t["n"]
         nonedge = [[u, v] for u in range(1, n + 1) for v in range(u + 1, n + 1) if [u, v] not in t["edges"]]
         if nonedge:
-            neg_t.append(len(traces))
+            neg_t.append((len(traces), i))
             traces.append(dict(t, outw=t["outw"] + [nonedge[0]]))
             tmeta.append(None)
         if t["min"]:
             bad = list(t["mout"])
             bad[0] = bad[0] % n + 1
-            neg_t.append(len(traces))
+            neg_t.append((len(traces), i))
             traces.append(dict(t, mout=bad))
             tmeta.append(None)
     for i in range(0, len(ecases), max(1, len(ecases) // 12)):
         c = ecases[i]
         p = list(c["bs"][0]["perm"])
         p[0], p[1] = p[1], p[0]
-        neg_e.append(len(ecases))
+        neg_e.append((len(ecases), i))
         ecases.append({"n": c["n"], "a": c["a"], "bs": [dict(c["bs"][0], perm=p)]})
         emeta.append(None)
-        neg_e.append(len(ecases))
+        neg_e.append((len(ecases), i))
         ecases.append({"n": c["n"], "a": c["a"], "bs": [dict(c["bs"][0], b=c["bs"][0]["b"] + [rec("T", [1])])]})
         emeta.append(None)
     # ---- TLC: structural clauses
@@ -261,7 +262,9 @@ def run(tier, seed):
                                   f"{m[0].get('output')}", replay=m[0]))
         elif traces[i]["err"]:
             n_err_ok += 1
-    nneg_t = sum(1 for i in neg_t if tv[i] != "ok")
+    # a corrupted copy is a valid negative control only if its source was accepted
+    neg_t = [(i, src) for i, src in neg_t if tv[src] == "ok"]
+    nneg_t = sum(1 for i, _ in neg_t if tv[i] != "ok")
     # ---- TLC: exact unitaries up to the measurement permutation
     ev, _, est = rel.validate("C19", ecases, M)
     samples = []
@@ -278,8 +281,10 @@ def run(tier, seed):
                 sum(g_["g"] == "SWAP" for g_ in m["output"]) > sum(g_["g"] == "SWAP" for g_ in m["circuit"]):
             samples.append({"n": m["n"], "edges": m["edges"], "input": [(c["g"], c["w"]) for c in m["circuit"]],
                             "output": [(c["g"], c["w"]) for c in m["output"]], "perm": m["perm"], "verdict": "ok"})
-    nneg_e = sum(1 for i in neg_e if ev[(i, 0)] != "ok")
-    if not neg_t or not neg_e or nneg_t != len(neg_t) or nneg_e != len(neg_e):
+    n_neg_e_all = len(neg_e)
+    neg_e = [(i, src) for i, src in neg_e if ev[(src, 0)] == "ok"]
+    nneg_e = sum(1 for i, _ in neg_e if ev[(i, 0)] != "ok")
+    if nneg_t != len(neg_t) or nneg_e != len(neg_e) or (not viol and (not neg_t or not neg_e)):
         raise lib.MachineryError(f"negative controls rejected: trace {nneg_t}/{len(neg_t)}, unitary {nneg_e}/{len(neg_e)}")
     # ---- measurement values (perm not determined by the measurements)
     n_val = 0
@@ -329,11 +334,11 @@ def run(tier, seed):
         raise lib.MachineryError(f"vacuous run: routed {stats['routed_calls']}, wide-gate errors {n_err_ok}")
     cov = {"states": gres.distinct + r.distinct + est["distinct"] + vst["distinct"],
            "transitions": gres.generated + r.generated + est["generated"] + vst["generated"],
-           "traces_validated_against_impl": len(traces) - len(neg_t), "evaluations": stats["calls"],
+           "traces_validated_against_impl": n_real_traces, "evaluations": stats["calls"],
            "distinct_nontrivial": len(nontrivial),
            "rule": "every connected labelled graph on 3-5 nodes is enumerated by TLC (770); per graph seeded circuits of <= 5 (+1) gates; "
                    "non-trivial = distinct (graph, circuit) for which transpile inserted at least one SWAP",
-           "samples": samples, "exhaustive": tier != "quick", "unitary_relations_decided": len(ecases) - len(neg_e),
+           "samples": samples, "exhaustive": tier != "quick", "unitary_relations_decided": len(ecases) - n_neg_e_all,
            "measurement_values_compared": n_val, "documented_errors_confirmed": n_err_ok,
            "negative_controls_rejected": nneg_t + nneg_e + neg_v, **stats}
     return CheckResult(coverage=cov, violations=viol, assumptions=[
